@@ -196,14 +196,19 @@ def run_genidx(ctx=None):
                               "lake_s": round(t3 - t2, 2)}
 
 
-def genidx_step(check, ctx, only_property=None):
+def genidx_step_all(check, ctx):
+    """Like genidx_step, reporting every `gen_eq_*` of the index tie that no longer checks as a problem of the calling check."""
+    return genidx_step(check, ctx, all_ties=True)
+
+
+def genidx_step(check, ctx, only_property=None, all_ties=False):
     info = ctx["info"]
     t0 = time.time()
     rep, failed, out, timing = run_genidx(ctx)
     status = {f["go"]: f for f in rep["functions"]}
     unsupported = {g: "%s: %s" % (f["status"], f.get("reason", "")) for g, f in status.items() if f["status"] != "ok"}
     pid = only_property or getattr(check, "pid", None)
-    mine = [t for t, (_, ps) in TIES.items() if pid in ps] or list(TIES)
+    mine = list(TIES) if all_ties else ([t for t, (_, ps) in TIES.items() if pid in ps] or list(TIES))
     known = {n for _, n in _theorem_lines(TIE_LEAN)}
     missing = [t for t in TIES if t not in known]
     if missing:
